@@ -270,6 +270,9 @@ pub enum Step {
     Eof,
     /// Advance virtual time by `ms`.
     Advance { ms: u32 },
+    /// A publish whose payload is sized from the transmit arena: `tx - 8 - slack` bytes, so that the
+    /// retained packet (almost) fills the arena.
+    PublishFill { qos: u8, slack: u8, seed: u8 },
     /// Switch the broker's behaviour from here on.
     SetBroker(BrokerMode),
     /// The application stays in poll() for `ms` of virtual time (time flows to deadlines/arrivals).
